@@ -74,6 +74,11 @@ Choices(c, m) == {""} \cup {b[1] : b \in PMap(c, m)} \cup (AllPrefixes(c) \ {b[1
         typedef-unused (path) in a typedef of T that nothing uses
         refine         (must) added by `refine` under a `uses` written in T of a grouping of G
         deviate-add    (must) added by a `deviation` written in T to a leaf of U (T imports U)
+     Several statements on ONE node: a statement with on = j > 0 has no leaf of its own, it is a
+     further must (or the when) of the node that carries statement j (hp = the place of statement j):
+        same           written next to statement j on the same node (same T, U, V)
+        refine-on      (must) added to that node by `refine` under the uses that copies it (T = U of j)
+        deviate-on     (must) added to that node by a `deviation` written in module T
      T : module in which the statement is textually written;  U, V as above
      e : expression (index into the pool of its kind), pf : prefix per slot    *)
 Places(kind) == CASE kind = "must" -> {"direct", "grp-local", "grp-cross", "grp-chain", "grp-unused", "augment", "refine", "deviate-add"}
@@ -97,13 +102,14 @@ Sites(c, place) ==
 \* the module whose namespace an unprefixed name belongs to; "*" = not judged (RFC 6020 is silent for
 \* a typedef used from another module, for a when whose context node is an augment's target and for
 \* a must that a deviation adds to a node of another module)
-CurMod(s) == CASE s.place \in {"direct", "grp-local", "typedef-local", "augment", "when-uses", "refine", "grp-unused", "typedef-unused"} -> s.T
+CurMod(s) == CASE s.place \in {"direct", "grp-local", "typedef-local", "augment", "when-uses", "refine", "grp-unused", "typedef-unused", "refine-on"} -> s.T
                [] s.place \in {"grp-cross", "grp-chain"} -> s.U
+               [] s.place = "same" -> (IF s.hp \in {"grp-cross", "grp-chain"} THEN s.U ELSE s.T)
                [] OTHER -> "*"
 \* is the statement named by the error judged?  (a `when` inherited from uses / augment is carried by
 \* every node it is copied to, a must added by refine / deviate is written in one place and carried
 \* by a node written in another: which statement "carries" it is a matter of taste)
-NamedJudged(s) == s.place \notin {"when-uses", "when-augment", "refine", "deviate-add"}
+NamedJudged(s) == s.place \notin {"when-uses", "when-augment", "refine", "deviate-add", "refine-on", "deviate-on"}
 
 \* does a machine for the statement appear in the compiled schema (when the module set compiles)?
 Observable(s) == s.place \notin {"grp-unused", "typedef-unused"}
@@ -152,7 +158,7 @@ Verdict(I) == IF \E i \in 1..Len(I.stmts) : Bad(I.cfg, I.stmts[i]) THEN "error" 
 BadStmts(I) == {i \in 1..Len(I.stmts) : Bad(I.cfg, I.stmts[i])}
 
 \* ------------------------------------------------------------- instance space
-Stmt(kind, place, site, e, pf) == [kind |-> kind, place |-> place, T |-> site[1], U |-> site[2], V |-> site[3], e |-> e, pf |-> pf]
+Stmt(kind, place, site, e, pf) == [kind |-> kind, place |-> place, T |-> site[1], U |-> site[2], V |-> site[3], e |-> e, pf |-> pf, on |-> 0, hp |-> ""]
 PfChoices(c, m, x) == LET sl == Slots(x) IN
                       {pf \in [1..2 -> Choices(c, m)] : \A i \in 1..2 : i \notin sl => pf[i] = ""}
 StmtsOf(c, kind, place) ==
@@ -178,6 +184,47 @@ SampleOne(c, kind, place, good) ==
               : site \in {RandomElement(Sites(c, place))}}
 SampleStmts(c, kind, place, n) == UNION {SampleOne(c, kind, place, FALSE) : i \in 1..n}
 RandStmt(c, good) == UNION {UNION {SampleOne(c, k, p, good) : p \in {RandomElement({q \in Places(k) : Sites(c, q) # {}})}} : k \in {RandomElement(Kinds)}}
+\* ---- several statements on one node.  A host statement (must, when or path; written directly, in a grouping used
+\* locally / from another unit, or under augment) and two or three further statements on the SAME node: musts (and, if
+\* the host is not a when, possibly the node's when) written next to it, or musts added by refine (host in a grouping)
+\* or by a deviation (host written directly).  Statements of one kind on one node have different expressions, so each
+\* compiled machine can be told by its text.  `bad` in 0..4: which position (0 = none, 1 = host) carries the defect
+\* (reject pool or undeclared / foreign prefix).
+HostPlaces == {"direct", "grp-local", "grp-cross", "augment"}
+DevUnits(c, h) == {d \in Present(c) : ImportsMod(c, d, ModOf(h.T)) /\ d # ModOf(h.T) /\ TargetPathPlain(c, d, ModOf(h.T))}
+Modes(c, h) == {"same"} \cup (IF h.place \in {"grp-local", "grp-cross"} THEN {"refine-on"} ELSE {})
+               \cup (IF h.place = "direct" /\ DevUnits(c, h) # {} THEN {"deviate-on"} ELSE {})
+\* one random further statement (singleton set) of the kind on the node of host h (statement number j), expression not in `used`
+ExtraOne(c, h, j, kind, mode, good, used) ==
+  UNION {UNION {UNION {{[kind |-> kind, place |-> mode, T |-> t, U |-> h.U, V |-> h.V, e |-> e, pf |-> pf, on |-> j, hp |-> h.place]
+                        : pf \in {RandomElement(IF good THEN PfGood(c, t, ExprAt(kind, e)) ELSE PfChoices(c, t, ExprAt(kind, e)))}}
+                       : e \in {IF good \/ RandomElement(1..2) = 1 THEN RandomElement((1..NAccept(kind)) \ used)
+                                ELSE NAccept(kind) + RandomElement(1..Len(RejectPool(kind)))}}
+                : t \in {CASE mode = "same" -> h.T [] mode = "refine-on" -> h.U [] OTHER -> RandomElement(DevUnits(c, h))}}
+         : dummy \in {1}}
+\* a bad statement must really be bad (a draw from all prefixes may come out well-formed): draw until it is
+RECURSIVE ExtraBad(_, _, _, _, _, _, _)
+ExtraBad(c, h, j, kind, mode, used, fuel) ==
+  LET X == ExtraOne(c, h, j, kind, mode, FALSE, used) IN
+  IF fuel = 0 \/ \E x \in X : Bad(c, x) THEN X ELSE ExtraBad(c, h, j, kind, mode, used, fuel - 1)
+Extra(c, h, j, kind, mode, bad, used) == IF bad THEN ExtraBad(c, h, j, kind, mode, used, 20) ELSE ExtraOne(c, h, j, kind, mode, TRUE, used)
+RECURSIVE HostBad(_, _, _, _)
+HostBad(c, k, p, fuel) == LET X == SampleOne(c, k, p, FALSE) IN
+                          IF fuel = 0 \/ \E x \in X : Bad(c, x) THEN X ELSE HostBad(c, k, p, fuel - 1)
+UsedE(h, kind) == IF h.kind = kind THEN {h.e} ELSE {}
+StackOne(c) ==
+  UNION {UNION {UNION {UNION {UNION {UNION {UNION {
+     {[cfg |-> c, stmts |-> IF n3 THEN <<h, x2, x3, x4>> ELSE <<h, x2, x3>>]
+        : x4 \in Extra(c, h, 1, "must", m4, bad = 4, UsedE(h, "must") \cup {x2.e, x3.e})}
+       : m4 \in {RandomElement(Modes(c, h))}}
+      : x3 \in Extra(c, h, 1, k3, IF k3 = "when" THEN "same" ELSE RandomElement(Modes(c, h)), bad = 3, UsedE(h, k3) \cup (IF k3 = "must" THEN {x2.e} ELSE {}))}
+     : k3 \in {IF h.kind # "when" /\ RandomElement(1..3) = 1 THEN "when" ELSE "must"}}
+    : x2 \in Extra(c, h, 1, "must", RandomElement(Modes(c, h)), bad = 2, UsedE(h, "must"))}
+   : h \in (IF bad = 1 THEN HostBad(c, hk, hp, 20) ELSE SampleOne(c, hk, hp, TRUE))}
+  : hp \in {RandomElement({q \in HostPlaces : Sites(c, q) # {}})}}
+  : hk \in {RandomElement(Kinds)}, n3 \in {RandomElement(BOOLEAN)}, bad \in {RandomElement(0..4)}}
+Stacks(c, n) == UNION {StackOne(c) : i \in 1..n}
+
 \* n seeded random instances with several statements at once (at most one of them rejected, so that
 \* the statement the error must name is unique)
 Multi(c, n) == UNION {UNION {UNION {UNION {UNION {{[cfg |-> c, stmts |-> <<s1, s2, s3, s4>>]} : s4 \in RandStmt(c, TRUE)} : s3 \in RandStmt(c, TRUE)}
